@@ -98,6 +98,9 @@ pub fn entries(tier: Tier) -> Vec<Entry> {
     arithmetic_chains(&mut e);
     layout_ops(&mut e);
     index_ops(&mut e);
+    reduce_ops(&mut e);
+    unary_with_extras(&mut e);
+    nn_ops(&mut e);
     let _ = (tier, entry_vac("", |_, _| {}).may_be_vacuous);
     e
 }
@@ -1319,6 +1322,721 @@ fn index_ops(e: &mut Vec<Entry>) {
     e.push(entry("NonZero", |tier, sink| {
         for s in data_shapes(tier) {
             sink(Case::new("NonZero", "dynamic data", vec![n("NonZero", &["x"], &["y"])], vec![TIn::f32("x", &s)]));
+        }
+    }));
+}
+
+// ---------------------------------------------------------------------------
+// Reductions
+
+fn reduce_ops(e: &mut Vec<Entry>) {
+    for op in ["ReduceSum", "ReduceMean", "ReduceMax", "ReduceMin", "ReduceProd", "ReduceL1", "ReduceL2", "ReduceLogSum", "ReduceLogSumExp", "ReduceSumSquare"] {
+        let name = format!("{op} axes input (opset 18)");
+        e.push(entry(&name.clone(), move |tier, sink| {
+            // The ten reduce operators share one inference rule; the large
+            // shape range is spent on ReduceSum and ReduceMax.
+            let shapes = if op == "ReduceSum" || op == "ReduceMax" { data_shapes(tier) } else { all_shapes(2, &[0, 1, 2]) };
+            for s in shapes {
+                let r = s.len();
+                for keep in [1i64, 0] {
+                    for noop in [0i64, 1] {
+                        // axes omitted
+                        sink(Case::new(
+                            &name,
+                            if noop == 1 { "axes omitted, noop_with_empty_axes=1" } else { "axes omitted" },
+                            vec![n(op, &["x"], &["y"]).attr("keepdims", Attr::Int(keep)).attr("noop_with_empty_axes", Attr::Int(noop))],
+                            vec![TIn::f32("x", &s).positive()],
+                        ));
+                        for sub in subsets(r) {
+                            let pos: Vec<i64> = sub.iter().map(|a| *a as i64).collect();
+                            let neg: Vec<i64> = sub.iter().map(|a| neg_axis(*a, r)).collect();
+                            let variants = if sub.is_empty() { vec![pos] } else { vec![pos, neg] };
+                            for axes in variants {
+                                for (init, mode) in value_modes() {
+                                    let feat = if axes.is_empty() {
+                                        if noop == 1 { format!("{mode}; empty axes, noop_with_empty_axes=1") } else { format!("{mode}; empty axes") }
+                                    } else {
+                                        mode.to_string()
+                                    };
+                                    sink(Case::new(
+                                        &name,
+                                        &feat,
+                                        vec![n(op, &["x", "ax"], &["y"]).attr("keepdims", Attr::Int(keep)).attr("noop_with_empty_axes", Attr::Int(noop))],
+                                        vec![TIn::f32("x", &s).positive(), vin("ax", &axes, init)],
+                                    ));
+                                }
+                            }
+                        }
+                    }
+                }
+            }
+        }));
+    }
+    e.push(entry("ReduceSum/ReduceMax axes attribute (opset 11)", |tier, sink| {
+        for op in ["ReduceMax", "ReduceMean"] {
+            for s in data_shapes(tier) {
+                let r = s.len();
+                for keep in [1i64, 0] {
+                    sink(Case::new("ReduceSum/ReduceMax axes attribute (opset 11)", "axes attribute omitted", vec![n(op, &["x"], &["y"]).attr("keepdims", Attr::Int(keep))], vec![TIn::f32("x", &s).positive()]).opset(11));
+                    for sub in subsets(r) {
+                        if sub.is_empty() {
+                            continue;
+                        }
+                        let neg: Vec<i64> = sub.iter().map(|a| neg_axis(*a, r)).collect();
+                        sink(Case::new(
+                            "ReduceSum/ReduceMax axes attribute (opset 11)",
+                            "axes attribute",
+                            vec![n(op, &["x"], &["y"]).attr("keepdims", Attr::Int(keep)).attr("axes", Attr::Ints(neg))],
+                            vec![TIn::f32("x", &s).positive()],
+                        )
+                        .opset(11));
+                    }
+                }
+            }
+        }
+    }));
+    for op in ["ArgMax", "ArgMin"] {
+        e.push(entry(op, move |tier, sink| {
+            for s in data_shapes(tier) {
+                let r = s.len() as i64;
+                for keep in [1i64, 0] {
+                    sink(Case::new(op, "default axis", vec![n(op, &["x"], &["y"]).attr("keepdims", Attr::Int(keep))], vec![TIn::f32("x", &s)]));
+                    for axis in -r..r {
+                        sink(Case::new(op, "axis attribute", vec![n(op, &["x"], &["y"]).attr("keepdims", Attr::Int(keep)).attr("axis", Attr::Int(axis))], vec![TIn::f32("x", &s)]));
+                    }
+                }
+            }
+        }));
+    }
+}
+
+// ---------------------------------------------------------------------------
+// "Same shape as first input" operators that need attributes or extra inputs.
+
+fn unary_with_extras(e: &mut Vec<Entry>) {
+    for op in ["Softmax", "LogSoftmax", "LpNormalization"] {
+        e.push(entry(op, move |tier, sink| {
+            for s in data_shapes(tier) {
+                let r = s.len() as i64;
+                sink(Case::new(op, "default axis", vec![n(op, &["x"], &["y"])], vec![TIn::f32("x", &s)]));
+                for axis in -r..r {
+                    sink(Case::new(op, "axis attribute", vec![n(op, &["x"], &["y"]).attr("axis", Attr::Int(axis))], vec![TIn::f32("x", &s)]));
+                }
+            }
+        }));
+    }
+    e.push(entry("Clip", |tier, sink| {
+        for s in data_shapes(tier) {
+            for (mn, mx) in [(false, false), (true, false), (false, true), (true, true)] {
+                let mut names = vec!["x"];
+                let mut ins = vec![TIn::f32("x", &s)];
+                if mn || mx {
+                    names.push(if mn { "mn" } else { "" });
+                }
+                if mn {
+                    ins.push(TIn::floats("mn", &[], &[-0.5]).as_init());
+                }
+                if mx {
+                    names.push("mx");
+                    ins.push(TIn::floats("mx", &[], &[0.5]));
+                }
+                sink(Case::new("Clip", "min/max inputs", vec![n("Clip", &names, &["y"])], ins));
+            }
+            sink(Case::new("Clip", "min/max attributes (opset 6)", vec![n("Clip", &["x"], &["y"]).attr("min", Attr::Float(-1.0)).attr("max", Attr::Float(1.0))], vec![TIn::f32("x", &s)]).opset(6));
+        }
+    }));
+    e.push(entry("Cast", |tier, sink| {
+        let types = [dtype::FLOAT, dtype::INT32, dtype::INT64, dtype::BOOL, dtype::UINT8, dtype::INT8, dtype::DOUBLE, dtype::FLOAT16];
+        for s in all_shapes(tier.pick(2, 3), &SIZES) {
+            for from in [dtype::FLOAT, dtype::INT64, dtype::INT32, dtype::BOOL, dtype::UINT8] {
+                for to in types {
+                    let x = if from == dtype::FLOAT { TIn::f32("x", &s) } else { TIn::int_data("x", from, &s) };
+                    sink(Case::new("Cast", "dynamic data", vec![n("Cast", &["x"], &["y"]).attr("to", Attr::Int(to as i64))], vec![x]));
+                }
+            }
+        }
+        // constants: value-preserving casts
+        for to in types {
+            for v in [-3i64, 0, 2, 300] {
+                sink(Case::new("Cast", "int constant operand", vec![n("Cast", &["x"], &["y"]).attr("to", Attr::Int(to as i64))], vec![TIn::scalar_i64("x", v).as_init()]));
+                sink(Case::new("Cast", "int constant operand", vec![n("Cast", &["x"], &["y"]).attr("to", Attr::Int(to as i64))], vec![TIn::vec_i64("x", &[v, 1]).as_init()]));
+            }
+            for v in [-3.0f32, 0.0, 2.0, 2.5, -2.5, 300.0, 1e10] {
+                sink(Case::new("Cast", "float constant operand", vec![n("Cast", &["x"], &["y"]).attr("to", Attr::Int(to as i64))], vec![TIn::floats("x", &[], &[v]).as_init()]));
+                sink(Case::new("Cast", "float constant operand", vec![n("Cast", &["x"], &["y"]).attr("to", Attr::Int(to as i64))], vec![TIn::floats("x", &[2], &[v, 1.0]).as_init()]));
+            }
+        }
+    }));
+    e.push(entry("CastLike", |tier, sink| {
+        for s in all_shapes(tier.pick(2, 3), &SIZES) {
+            for like_shape in [vec![], vec![2usize]] {
+                sink(Case::new("CastLike", "dynamic data", vec![n("CastLike", &["x", "t"], &["y"])], vec![TIn::f32("x", &s), TIn::int_data("t", dtype::INT64, &like_shape)]));
+                sink(Case::new("CastLike", "dynamic data", vec![n("CastLike", &["x", "t"], &["y"])], vec![TIn::int_data("x", dtype::INT32, &s), TIn::f32("t", &like_shape).as_init()]));
+            }
+        }
+    }));
+    e.push(entry("Trilu", |tier, sink| {
+        for s in data_shapes(tier).into_iter().filter(|s| s.len() >= 2) {
+            for upper in [1i64, 0] {
+                sink(Case::new("Trilu", "no k", vec![n("Trilu", &["x"], &["y"]).attr("upper", Attr::Int(upper))], vec![TIn::f32("x", &s)]));
+                for k in [-1i64, 0, 2] {
+                    for (init, mode) in value_modes() {
+                        let mut kt = TIn::scalar_i64("k", k);
+                        kt.init = init;
+                        sink(Case::new("Trilu", mode, vec![n("Trilu", &["x", "k"], &["y"]).attr("upper", Attr::Int(upper))], vec![TIn::f32("x", &s), kt]));
+                    }
+                }
+            }
+        }
+    }));
+    e.push(entry("CumSum", |tier, sink| {
+        for s in data_shapes(tier).into_iter().filter(|s| !s.is_empty()) {
+            let r = s.len() as i64;
+            for axis in -r..r {
+                for (init, mode) in value_modes() {
+                    for (excl, rev) in [(0i64, 0i64), (1, 1)] {
+                        let mut at = TIn::ints("ax", dtype::INT32, &[], &[axis]);
+                        at.init = init;
+                        sink(Case::new("CumSum", mode, vec![n("CumSum", &["x", "ax"], &["y"]).attr("exclusive", Attr::Int(excl)).attr("reverse", Attr::Int(rev))], vec![TIn::f32("x", &s), at]));
+                    }
+                }
+            }
+        }
+    }));
+    e.push(entry("EyeLike", |_, sink| {
+        for s in shapes_of_rank(2, &SIZES) {
+            for k in [-1i64, 0, 1] {
+                sink(Case::new("EyeLike", "k attribute", vec![n("EyeLike", &["x"], &["y"]).attr("k", Attr::Int(k))], vec![TIn::f32("x", &s)]));
+                sink(Case::new("EyeLike", "k and dtype attributes", vec![n("EyeLike", &["x"], &["y"]).attr("k", Attr::Int(k)).attr("dtype", Attr::Int(dtype::INT32 as i64))], vec![TIn::f32("x", &s)]));
+            }
+        }
+    }));
+    e.push(entry("Dropout", |tier, sink| {
+        for s in data_shapes(tier) {
+            sink(Case::new("Dropout", "inference mode", vec![n("Dropout", &["x"], &["y", "m"])], vec![TIn::f32("x", &s)]));
+            sink(Case::new("Dropout", "inference mode", vec![n("Dropout", &["x"], &["y"])], vec![TIn::f32("x", &s)]));
+            sink(Case::new(
+                "Dropout",
+                "ratio and training_mode inputs",
+                vec![n("Dropout", &["x", "r", "t"], &["y", "m"]).attr("seed", Attr::Int(1))],
+                vec![TIn::f32("x", &s), TIn::floats("r", &[], &[0.5]).as_init(), TIn::ints("t", dtype::BOOL, &[], &[1]).as_init()],
+            ));
+        }
+    }));
+    e.push(entry("RandomNormalLike/RandomUniformLike", |tier, sink| {
+        for op in ["RandomNormalLike", "RandomUniformLike"] {
+            for s in data_shapes(tier) {
+                sink(Case::new("RandomNormalLike/RandomUniformLike", "seeded", vec![n(op, &["x"], &["y"]).attr("seed", Attr::Float(1.0))], vec![TIn::f32("x", &s)]));
+            }
+        }
+    }));
+    e.push(entry("RandomNormal/RandomUniform", |tier, sink| {
+        for op in ["RandomNormal", "RandomUniform"] {
+            for s in all_shapes(tier.pick(2, 3), &SIZES) {
+                let sv: Vec<i64> = s.iter().map(|d| *d as i64).collect();
+                // a dummy second node keeps a graph input in the model
+                sink(Case::new("RandomNormal/RandomUniform", "shape attribute", vec![n(op, &[], &["y"]).attr("shape", Attr::Ints(sv)).attr("seed", Attr::Float(1.0))], vec![]));
+            }
+        }
+    }));
+    e.push(entry("Multinomial", |_, sink| {
+        for b in [0usize, 1, 2] {
+            for c in [1usize, 3] {
+                for ss in [0i64, 1, 4] {
+                    sink(Case::new("Multinomial", "sample_size attribute", vec![n("Multinomial", &["x"], &["y"]).attr("sample_size", Attr::Int(ss)).attr("seed", Attr::Float(1.0))], vec![TIn::f32("x", &[b, c]).positive()]));
+                }
+            }
+        }
+    }));
+    e.push(entry("BatchNormalization", |tier, sink| {
+        for s in data_shapes(tier).into_iter().filter(|s| s.len() >= 2) {
+            let c = s[1];
+            let p = |nm: &str| TIn::f32(nm, &[c]).positive().as_init();
+            sink(Case::new("BatchNormalization", "per-channel parameters", vec![n("BatchNormalization", &["x", "sc", "b", "m", "v"], &["y"])], vec![TIn::f32("x", &s), p("sc"), p("b"), p("m"), p("v")]));
+        }
+    }));
+    e.push(entry("InstanceNormalization", |tier, sink| {
+        for s in data_shapes(tier).into_iter().filter(|s| s.len() >= 3) {
+            let c = s[1];
+            let p = |nm: &str| TIn::f32(nm, &[c]).positive().as_init();
+            sink(Case::new("InstanceNormalization", "per-channel parameters", vec![n("InstanceNormalization", &["x", "sc", "b"], &["y"])], vec![TIn::f32("x", &s), p("sc"), p("b")]));
+        }
+    }));
+    for (op, domain) in [("LayerNormalization", ""), ("RMSNormalization", ""), ("SimplifiedLayerNormalization", "ai.onnx")] {
+        e.push(entry(op, move |tier, sink| {
+            for s in data_shapes(tier).into_iter().filter(|s| !s.is_empty()) {
+                let r = s.len() as i64;
+                for axis in -r..r {
+                    let a = (if axis < 0 { axis + r } else { axis }) as usize;
+                    let pshape: Vec<usize> = s[a..].to_vec();
+                    let mut ins = vec![TIn::f32("x", &s), TIn::f32("sc", &pshape).positive().as_init()];
+                    let mut names = vec!["x", "sc"];
+                    if op == "LayerNormalization" {
+                        ins.push(TIn::f32("b", &pshape).as_init());
+                        names.push("b");
+                    }
+                    let mut node = n(op, &names, &["y"]).attr("axis", Attr::Int(axis));
+                    if !domain.is_empty() {
+                        node = node.domain(domain);
+                    }
+                    sink(Case::new(op, "axis attribute", vec![node], ins).opset(23));
+                }
+            }
+        }));
+    }
+    e.push(entry("QuantizeLinear/DequantizeLinear/DynamicQuantizeLinear", |tier, sink| {
+        for s in data_shapes(tier) {
+            sink(Case::new(
+                "QuantizeLinear/DequantizeLinear/DynamicQuantizeLinear",
+                "per-tensor scale",
+                vec![n("QuantizeLinear", &["x", "sc", "zp"], &["y"])],
+                vec![TIn::f32("x", &s), TIn::floats("sc", &[], &[0.5]).as_init(), TIn::ints("zp", dtype::UINT8, &[], &[3]).as_init()],
+            ));
+            sink(Case::new(
+                "QuantizeLinear/DequantizeLinear/DynamicQuantizeLinear",
+                "per-tensor scale",
+                vec![n("DequantizeLinear", &["x", "sc", "zp"], &["y"])],
+                vec![TIn::int_data("x", dtype::UINT8, &s), TIn::floats("sc", &[], &[0.5]).as_init(), TIn::ints("zp", dtype::UINT8, &[], &[3]).as_init()],
+            ));
+            sink(Case::new("QuantizeLinear/DequantizeLinear/DynamicQuantizeLinear", "dynamic quantization", vec![n("DynamicQuantizeLinear", &["x"], &["y", "ysc", "yzp"])], vec![TIn::f32("x", &s)]));
+            if s.len() >= 2 {
+                let c = s[1];
+                sink(Case::new(
+                    "QuantizeLinear/DequantizeLinear/DynamicQuantizeLinear",
+                    "per-axis scale",
+                    vec![n("DequantizeLinear", &["x", "sc", "zp"], &["y"]).attr("axis", Attr::Int(1))],
+                    vec![TIn::int_data("x", dtype::INT8, &s), TIn::f32("sc", &[c]).positive().as_init(), TIn::ints("zp", dtype::INT8, &[c], &vec![0; c]).as_init()],
+                ));
+            }
+        }
+    }));
+    e.push(entry("ScatterElements/ScatterND/Scatter", |tier, sink| {
+        for s in all_shapes(tier.pick(2, 3), &[1, 2, 3]).into_iter().filter(|s| !s.is_empty()) {
+            let r = s.len();
+            for axis in 0..r {
+                for idx_shape in shapes_of_rank(r, &[0, 1]) {
+                    let cnt: usize = idx_shape.iter().product();
+                    for op in ["ScatterElements", "Scatter"] {
+                        let c = Case::new(
+                            "ScatterElements/ScatterND/Scatter",
+                            "indices/updates of smaller shape",
+                            vec![n(op, &["x", "i", "u"], &["y"]).attr("axis", Attr::Int(axis as i64))],
+                            vec![TIn::f32("x", &s), TIn::ints("i", dtype::INT64, &idx_shape, &vec![0; cnt]), TIn::f32("u", &idx_shape)],
+                        );
+                        sink(if op == "Scatter" { c.opset(10) } else { c });
+                    }
+                }
+            }
+            // ScatterND: indices [k, r] -> updates [k]
+            for k in [0usize, 1, 2] {
+                sink(Case::new(
+                    "ScatterElements/ScatterND/Scatter",
+                    "full-index updates",
+                    vec![n("ScatterND", &["x", "i", "u"], &["y"])],
+                    vec![TIn::f32("x", &s), TIn::ints("i", dtype::INT64, &[k, r], &vec![0; k * r]), TIn::f32("u", &[k])],
+                ));
+            }
+        }
+    }));
+    e.push(entry("ReverseSequence", |_, sink| {
+        for t in [1usize, 2, 3] {
+            for b in [0usize, 1, 2] {
+                for rest in [vec![], vec![2usize]] {
+                    let mut s = vec![t, b];
+                    s.extend(rest.iter());
+                    sink(Case::new("ReverseSequence", "time-major", vec![n("ReverseSequence", &["x", "l"], &["y"])], vec![TIn::f32("x", &s), TIn::ints("l", dtype::INT64, &[b], &vec![1; b])]));
+                    let mut s2 = vec![b, t];
+                    s2.extend(rest.iter());
+                    sink(Case::new(
+                        "ReverseSequence",
+                        "batch-major",
+                        vec![n("ReverseSequence", &["x", "l"], &["y"]).attr("batch_axis", Attr::Int(0)).attr("time_axis", Attr::Int(1))],
+                        vec![TIn::f32("x", &s2), TIn::ints("l", dtype::INT64, &[b], &vec![1; b])],
+                    ));
+                }
+            }
+        }
+    }));
+    e.push(entry("Gelu variants (com.microsoft)", |tier, sink| {
+        for s in all_shapes(tier.pick(2, 3), &SIZES) {
+            for op in ["FastGelu", "Gelu", "QuickGelu"] {
+                sink(Case::new("Gelu variants (com.microsoft)", "float data", vec![n(op, &["x"], &["y"]).domain("com.microsoft")], vec![TIn::f32("x", &s)]));
+            }
+            if let Some(last) = s.last() {
+                sink(Case::new("Gelu variants (com.microsoft)", "float data with bias", vec![n("BiasGelu", &["x", "b"], &["y"]).domain("com.microsoft")], vec![TIn::f32("x", &s), TIn::f32("b", &[*last]).as_init()]));
+            }
+        }
+    }));
+    e.push(entry("SkipLayerNormalization (com.microsoft)", |_, sink| {
+        for b in [0usize, 1, 2] {
+            for sq in [1usize, 3] {
+                for h in [2usize, 4] {
+                    for op in ["SkipLayerNormalization", "SkipSimplifiedLayerNormalization"] {
+                        let mut names = vec!["x", "sk", "g"];
+                        let mut ins = vec![TIn::f32("x", &[b, sq, h]), TIn::f32("sk", &[b, sq, h]), TIn::f32("g", &[h]).positive().as_init()];
+                        if op == "SkipLayerNormalization" {
+                            names.push("be");
+                            ins.push(TIn::f32("be", &[h]).as_init());
+                        }
+                        for outs in [vec!["y"], vec!["y", "", "", "sum"]] {
+                            sink(Case::new(
+                                "SkipLayerNormalization (com.microsoft)",
+                                "3-D input",
+                                vec![n(op, &names, &outs).domain("com.microsoft").attr("epsilon", Attr::Float(1e-5))],
+                                ins.clone(),
+                            ));
+                        }
+                    }
+                }
+            }
+        }
+    }));
+}
+
+// ---------------------------------------------------------------------------
+// Convolution, pooling, matmul, resize and other NN operators
+
+fn nn_ops(e: &mut Vec<Entry>) {
+    e.push(entry("MatMul", |tier, sink| {
+        // batch dims broadcast; M, K, N from {0,1,2,3}
+        let batches: Vec<(Vec<usize>, Vec<usize>)> = {
+            let bs = all_shapes(tier.pick(1, 2), &[1, 2]);
+            let mut v = Vec::new();
+            for a in &bs {
+                for b in &bs {
+                    if broadcast_shapes(a, b).is_some() {
+                        v.push((a.clone(), b.clone()));
+                    }
+                }
+            }
+            v
+        };
+        for (ba, bb) in batches {
+            for m in [0usize, 1, 2] {
+                for k in [0usize, 1, 3] {
+                    for nn in [0usize, 1, 2] {
+                        let mut a = ba.clone();
+                        a.extend([m, k]);
+                        let mut b = bb.clone();
+                        b.extend([k, nn]);
+                        sink(Case::new("MatMul", "matrices with batch dims", vec![n("MatMul", &["a", "b"], &["y"])], vec![TIn::f32("a", &a), TIn::f32("b", &b)]));
+                        if ba.is_empty() {
+                            sink(Case::new("MatMul", "constant right operand", vec![n("MatMul", &["a", "b"], &["y"])], vec![TIn::f32("a", &a), TIn::f32("b", &b).as_init()]));
+                        }
+                    }
+                }
+            }
+        }
+        // vector operands
+        for k in [1usize, 2] {
+            for nn in [1usize, 3] {
+                sink(Case::new("MatMul", "vector operand", vec![n("MatMul", &["a", "b"], &["y"])], vec![TIn::f32("a", &[k]), TIn::f32("b", &[k, nn])]));
+                sink(Case::new("MatMul", "vector operand", vec![n("MatMul", &["a", "b"], &["y"])], vec![TIn::f32("a", &[nn, k]), TIn::f32("b", &[k])]));
+                sink(Case::new("MatMul", "vector operand", vec![n("MatMul", &["a", "b"], &["y"])], vec![TIn::f32("a", &[k]), TIn::f32("b", &[k])]));
+            }
+        }
+    }));
+    e.push(entry("MatMulInteger", |_, sink| {
+        for m in [0usize, 1, 2] {
+            for k in [1usize, 3] {
+                for nn in [1usize, 2] {
+                    for batch in [vec![], vec![2usize]] {
+                        let mut a = batch.clone();
+                        a.extend([m, k]);
+                        sink(Case::new("MatMulInteger", "u8 x i8", vec![n("MatMulInteger", &["a", "b"], &["y"])], vec![TIn::int_data("a", dtype::UINT8, &a), TIn::int_data("b", dtype::INT8, &[k, nn])]));
+                        sink(Case::new(
+                            "MatMulInteger",
+                            "u8 x i8 with zero points",
+                            vec![n("MatMulInteger", &["a", "b", "az", "bz"], &["y"])],
+                            vec![TIn::int_data("a", dtype::UINT8, &a), TIn::int_data("b", dtype::INT8, &[k, nn]).as_init(), TIn::ints("az", dtype::UINT8, &[], &[1]).as_init(), TIn::ints("bz", dtype::INT8, &[], &[0]).as_init()],
+                        ));
+                    }
+                }
+            }
+        }
+    }));
+    e.push(entry("Gemm", |_, sink| {
+        for m in [0usize, 1, 2] {
+            for k in [0usize, 1, 3] {
+                for nn in [0usize, 1, 2] {
+                    for ta in [0i64, 1] {
+                        for tb in [0i64, 1] {
+                            let a = if ta == 1 { vec![k, m] } else { vec![m, k] };
+                            let b = if tb == 1 { vec![nn, k] } else { vec![k, nn] };
+                            for c in [None, Some(vec![]), Some(vec![nn]), Some(vec![m, nn]), Some(vec![1, nn])] {
+                                let mut ins = vec![TIn::f32("a", &a), TIn::f32("b", &b)];
+                                let mut names = vec!["a", "b"];
+                                if let Some(cs) = &c {
+                                    ins.push(TIn::f32("c", cs));
+                                    names.push("c");
+                                }
+                                sink(Case::new("Gemm", "transA/transB attributes", vec![n("Gemm", &names, &["y"]).attr("transA", Attr::Int(ta)).attr("transB", Attr::Int(tb))], ins));
+                            }
+                        }
+                    }
+                }
+            }
+        }
+    }));
+    e.push(entry("Einsum", |_, sink| {
+        let eqs: Vec<(&str, Vec<Vec<usize>>)> = vec![
+            ("ij,jk->ik", vec![vec![2, 3], vec![3, 1]]),
+            ("ij,jk->ik", vec![vec![0, 3], vec![3, 2]]),
+            ("ij,jk", vec![vec![2, 3], vec![3, 2]]),
+            ("ij->ji", vec![vec![2, 3]]),
+            ("ij->", vec![vec![2, 3]]),
+            ("ij->j", vec![vec![2, 0]]),
+            ("ii->i", vec![vec![2, 2]]),
+            ("i,i->", vec![vec![3], vec![3]]),
+            ("i,j->ij", vec![vec![3], vec![2]]),
+            ("bij,bjk->bik", vec![vec![2, 1, 3], vec![2, 3, 2]]),
+            ("bij,bjk->bik", vec![vec![1, 1, 3], vec![2, 3, 2]]),
+            ("...ij,...jk->...ik", vec![vec![2, 1, 3], vec![2, 3, 2]]),
+            ("...ij,...jk->...ik", vec![vec![1, 3], vec![2, 3, 2]]),
+            ("...i->...", vec![vec![2, 3]]),
+            ("i...->...", vec![vec![2, 3, 1]]),
+            ("ij,ij->ij", vec![vec![2, 3], vec![2, 3]]),
+            ("ij,ij->ij", vec![vec![1, 3], vec![2, 3]]),
+        ];
+        for (eq, shapes) in eqs {
+            let names: Vec<String> = (0..shapes.len()).map(|i| format!("x{i}")).collect();
+            let nrefs: Vec<&str> = names.iter().map(|s| s.as_str()).collect();
+            let ins: Vec<TIn> = shapes.iter().zip(&names).map(|(s, nm)| TIn::f32(nm, s)).collect();
+            sink(Case::new("Einsum", "equation attribute", vec![n("Einsum", &nrefs, &["y"]).attr("equation", Attr::Str(eq.into()))], ins));
+        }
+    }));
+    // Conv / ConvInteger / pools share the output-size formula; spatial sizes go to 6.
+    e.push(entry("Conv 1-D/2-D", |tier, sink| {
+        let spatial: &[usize] = if tier.is_thorough() { &[1, 2, 3, 4, 5, 6, 7] } else { &[1, 2, 3, 4, 6] };
+        for &h in spatial {
+            for k in [1usize, 2, 3] {
+                for stride in [1i64, 2, 3] {
+                    for dil in [1i64, 2] {
+                        for pad in [(0i64, 0i64), (1, 1), (0, 2), (2, 1)] {
+                            for auto in ["NOTSET", "SAME_UPPER", "SAME_LOWER", "VALID"] {
+                                if auto != "NOTSET" && pad != (0, 0) {
+                                    continue;
+                                }
+                                for nb in [1usize, 2] {
+                                    // 1-D
+                                    let mut node = n("Conv", &["x", "w"], &["y"])
+                                        .attr("kernel_shape", Attr::Ints(vec![k as i64]))
+                                        .attr("strides", Attr::Ints(vec![stride]))
+                                        .attr("dilations", Attr::Ints(vec![dil]));
+                                    if auto == "NOTSET" {
+                                        node = node.attr("pads", Attr::Ints(vec![pad.0, pad.1]));
+                                    } else {
+                                        node = node.attr("auto_pad", Attr::Str(auto.into()));
+                                    }
+                                    sink(Case::new("Conv 1-D/2-D", "1-D", vec![node], vec![TIn::f32("x", &[nb, 2, h]), TIn::f32("w", &[3, 2, k]).as_init()]));
+                                    // 2-D with a different second spatial dim
+                                    if nb == 1 && dil == 1 {
+                                        let mut node = n("Conv", &["x", "w", "b"], &["y"])
+                                            .attr("kernel_shape", Attr::Ints(vec![k as i64, 2]))
+                                            .attr("strides", Attr::Ints(vec![stride, 1]));
+                                        if auto == "NOTSET" {
+                                            node = node.attr("pads", Attr::Ints(vec![pad.0, 1, pad.1, 0]));
+                                        } else {
+                                            node = node.attr("auto_pad", Attr::Str(auto.into()));
+                                        }
+                                        sink(Case::new("Conv 1-D/2-D", "2-D with bias", vec![node], vec![TIn::f32("x", &[1, 2, h, 3]), TIn::f32("w", &[3, 2, k, 2]).as_init(), TIn::f32("b", &[3]).as_init()]));
+                                    }
+                                }
+                            }
+                        }
+                    }
+                }
+            }
+        }
+        // grouped / depthwise, dynamic weights, default attributes
+        for (cin, cout, g) in [(4usize, 4usize, 2i64), (4, 4, 4), (2, 6, 2)] {
+            sink(Case::new(
+                "Conv 1-D/2-D",
+                "grouped",
+                vec![n("Conv", &["x", "w"], &["y"]).attr("group", Attr::Int(g)).attr("kernel_shape", Attr::Ints(vec![2, 2]))],
+                vec![TIn::f32("x", &[1, cin, 3, 3]), TIn::f32("w", &[cout, cin / g as usize, 2, 2])],
+            ));
+        }
+    }));
+    e.push(entry("ConvInteger", |_, sink| {
+        for h in [2usize, 3, 5] {
+            for k in [1usize, 2] {
+                for stride in [1i64, 2] {
+                    sink(Case::new(
+                        "ConvInteger",
+                        "2-D u8 x i8",
+                        vec![n("ConvInteger", &["x", "w"], &["y"]).attr("kernel_shape", Attr::Ints(vec![k as i64, k as i64])).attr("strides", Attr::Ints(vec![stride, stride]))],
+                        vec![TIn::int_data("x", dtype::UINT8, &[1, 2, h, 4]), TIn::int_data("w", dtype::INT8, &[3, 2, k, k]).as_init()],
+                    ));
+                }
+            }
+        }
+    }));
+    e.push(entry("ConvTranspose", |tier, sink| {
+        let spatial: &[usize] = if tier.is_thorough() { &[1, 2, 3, 4] } else { &[1, 2, 3] };
+        for &h in spatial {
+            for k in [1usize, 2, 3] {
+                for stride in [1i64, 2] {
+                    for pad in [(0i64, 0i64), (1, 0), (1, 1)] {
+                        for outpad in [None, Some(1i64)] {
+                            if outpad == Some(1) && stride == 1 {
+                                continue;
+                            }
+                            for dil in [1i64, 2] {
+                                let mut node = n("ConvTranspose", &["x", "w"], &["y"])
+                                    .attr("kernel_shape", Attr::Ints(vec![k as i64]))
+                                    .attr("strides", Attr::Ints(vec![stride]))
+                                    .attr("dilations", Attr::Ints(vec![dil]))
+                                    .attr("pads", Attr::Ints(vec![pad.0, pad.1]));
+                                if let Some(op) = outpad {
+                                    node = node.attr("output_padding", Attr::Ints(vec![op]));
+                                }
+                                sink(Case::new("ConvTranspose", "1-D", vec![node], vec![TIn::f32("x", &[1, 2, h]), TIn::f32("w", &[2, 3, k]).as_init()]));
+                            }
+                            let mut node = n("ConvTranspose", &["x", "w"], &["y"])
+                                .attr("kernel_shape", Attr::Ints(vec![k as i64, 2]))
+                                .attr("strides", Attr::Ints(vec![stride, 2]))
+                                .attr("pads", Attr::Ints(vec![pad.0, 0, pad.1, 1]));
+                            if let Some(op) = outpad {
+                                node = node.attr("output_padding", Attr::Ints(vec![op, 0]));
+                            }
+                            sink(Case::new("ConvTranspose", "2-D", vec![node], vec![TIn::f32("x", &[2, 2, h, 2]), TIn::f32("w", &[2, 1, k, 2]).as_init()]));
+                        }
+                    }
+                    for auto in ["SAME_UPPER", "SAME_LOWER"] {
+                        sink(Case::new(
+                            "ConvTranspose",
+                            "auto_pad SAME",
+                            vec![n("ConvTranspose", &["x", "w"], &["y"]).attr("kernel_shape", Attr::Ints(vec![k as i64, k as i64])).attr("strides", Attr::Ints(vec![stride, stride])).attr("auto_pad", Attr::Str(auto.into()))],
+                            vec![TIn::f32("x", &[1, 2, h, h]), TIn::f32("w", &[2, 1, k, k]).as_init()],
+                        ));
+                    }
+                }
+            }
+        }
+        sink(Case::new(
+            "ConvTranspose",
+            "grouped",
+            vec![n("ConvTranspose", &["x", "w"], &["y"]).attr("kernel_shape", Attr::Ints(vec![2, 2])).attr("group", Attr::Int(2))],
+            vec![TIn::f32("x", &[1, 4, 2, 2]), TIn::f32("w", &[4, 3, 2, 2]).as_init()],
+        ));
+    }));
+    for op in ["MaxPool", "AveragePool"] {
+        e.push(entry(op, move |tier, sink| {
+            let spatial: &[usize] = if tier.is_thorough() { &[1, 2, 3, 4, 5, 6, 7, 8] } else { &[1, 2, 3, 4, 5, 7] };
+            for &h in spatial {
+                for k in [1i64, 2, 3] {
+                    for stride in [1i64, 2, 3] {
+                        for pad in [(0i64, 0i64), (1, 1), (0, 1), (1, 0)] {
+                            if pad.0 >= k || pad.1 >= k {
+                                continue;
+                            }
+                            for ceil in [0i64, 1] {
+                                sink(Case::new(
+                                    op,
+                                    if ceil == 1 { "1-D ceil_mode" } else { "1-D" },
+                                    vec![n(op, &["x"], &["y"]).attr("kernel_shape", Attr::Ints(vec![k])).attr("strides", Attr::Ints(vec![stride])).attr("pads", Attr::Ints(vec![pad.0, pad.1])).attr("ceil_mode", Attr::Int(ceil))],
+                                    vec![TIn::f32("x", &[1, 2, h])],
+                                ));
+                                sink(Case::new(
+                                    op,
+                                    if ceil == 1 { "2-D ceil_mode" } else { "2-D" },
+                                    vec![n(op, &["x"], &["y"]).attr("kernel_shape", Attr::Ints(vec![k, 2])).attr("strides", Attr::Ints(vec![stride, 1])).attr("pads", Attr::Ints(vec![pad.0, 0, pad.1, 1])).attr("ceil_mode", Attr::Int(ceil))],
+                                    vec![TIn::f32("x", &[2, 1, h, 3])],
+                                ));
+                            }
+                        }
+                        for auto in ["SAME_UPPER", "SAME_LOWER", "VALID"] {
+                            sink(Case::new(
+                                op,
+                                "auto_pad",
+                                vec![n(op, &["x"], &["y"]).attr("kernel_shape", Attr::Ints(vec![k, k])).attr("strides", Attr::Ints(vec![stride, stride])).attr("auto_pad", Attr::Str(auto.into()))],
+                                vec![TIn::f32("x", &[1, 1, h, 4])],
+                            ));
+                        }
+                    }
+                    // default strides
+                    sink(Case::new(op, "default strides", vec![n(op, &["x"], &["y"]).attr("kernel_shape", Attr::Ints(vec![k, k]))], vec![TIn::f32("x", &[1, 1, h, 4])]));
+                }
+            }
+        }));
+    }
+    e.push(entry("GlobalAveragePool/GlobalMaxPool", |tier, sink| {
+        for op in ["GlobalAveragePool", "GlobalMaxPool"] {
+            for s in data_shapes(tier).into_iter().filter(|s| s.len() >= 2) {
+                sink(Case::new("GlobalAveragePool/GlobalMaxPool", "dynamic data", vec![n(op, &["x"], &["y"])], vec![TIn::f32("x", &s)]));
+            }
+        }
+    }));
+    e.push(entry("Resize", |_, sink| {
+        for h in [1usize, 2, 3] {
+            for w in [1usize, 2] {
+                for nb in [1usize, 2] {
+                    let s = [nb, 2, h, w];
+                    for scales in [vec![1.0f32, 1.0, 2.0, 2.0], vec![1.0, 1.0, 0.5, 0.5], vec![1.0, 1.0, 1.5, 2.5], vec![1.0, 1.0, 3.0, 1.0], vec![2.0, 1.0, 1.0, 1.0]] {
+                        for mode in ["nearest", "linear"] {
+                            for (init, vm) in value_modes() {
+                                let mut st = TIn::floats("sc", &[4], &scales);
+                                st.init = init;
+                                let integral = scales.iter().all(|v| v.fract() == 0.0);
+                                sink(Case::new(
+                                    "Resize",
+                                    &format!("{vm}; scales {}", if integral { "integral" } else { "non-integral" }),
+                                    vec![n("Resize", &["x", "", "sc"], &["y"]).attr("mode", Attr::Str(mode.into()))],
+                                    vec![TIn::f32("x", &s), st],
+                                ));
+                            }
+                        }
+                    }
+                    for sizes in [vec![nb as i64, 2, 4, 4], vec![nb as i64, 2, 1, 3], vec![nb as i64, 2, 0, 2]] {
+                        for (init, vm) in value_modes() {
+                            sink(Case::new("Resize", &format!("{vm}; sizes"), vec![n("Resize", &["x", "", "", "sz"], &["y"])], vec![TIn::f32("x", &s), vin("sz", &sizes, init)]));
+                        }
+                    }
+                    // opset 11 style: empty roi and empty scales with sizes
+                    sink(Case::new(
+                        "Resize",
+                        "opset 11 inputs (empty roi/scales)",
+                        vec![n("Resize", &["x", "roi", "esc", "sz"], &["y"])],
+                        vec![TIn::f32("x", &s), TIn::floats("roi", &[0], &[]).as_init(), TIn::floats("esc", &[0], &[]).as_init(), vin("sz", &[nb as i64, 2, 2, 2], true)],
+                    ).opset(11));
+                }
+            }
+        }
+    }));
+    e.push(entry("Upsample", |_, sink| {
+        for h in [1usize, 2, 3] {
+            for scales in [vec![1.0f32, 1.0, 2.0, 2.0], vec![1.0, 1.0, 1.5, 3.0]] {
+                for (init, vm) in value_modes() {
+                    let mut st = TIn::floats("sc", &[4], &scales);
+                    st.init = init;
+                    sink(Case::new("Upsample", vm, vec![n("Upsample", &["x", "sc"], &["y"])], vec![TIn::f32("x", &[1, 2, h, 2]), st]).opset(9));
+                }
+                sink(Case::new("Upsample", "scales attribute (opset 7)", vec![n("Upsample", &["x"], &["y"]).attr("scales", Attr::Floats(scales.clone()))], vec![TIn::f32("x", &[1, 2, h, 2])]).opset(7));
+            }
+        }
+    }));
+    e.push(entry("GridSample", |_, sink| {
+        for nb in [1usize, 2] {
+            for (h, w) in [(2usize, 3usize), (1, 1)] {
+                for (ho, wo) in [(1usize, 2usize), (3, 3), (0, 2)] {
+                    sink(Case::new("GridSample", "2-D", vec![n("GridSample", &["x", "g"], &["y"])], vec![TIn::f32("x", &[nb, 2, h, w]), TIn::f32("g", &[nb, ho, wo, 2])]).opset(20));
+                }
+            }
+        }
+    }));
+    e.push(entry("NonMaxSuppression", |_, sink| {
+        for nbox in [0usize, 1, 3] {
+            for ncls in [1usize, 2] {
+                let boxes: Vec<f32> = (0..nbox).flat_map(|i| [i as f32, i as f32, i as f32 + 1.0, i as f32 + 1.0]).collect();
+                let scores: Vec<f32> = (0..ncls * nbox).map(|i| 0.9 - 0.1 * i as f32).collect();
+                sink(Case::new(
+                    "NonMaxSuppression",
+                    "boxes/scores",
+                    vec![n("NonMaxSuppression", &["b", "s", "mx", "iou", "st"], &["y"])],
+                    vec![TIn::floats("b", &[1, nbox, 4], &boxes), TIn::floats("s", &[1, ncls, nbox], &scores), TIn::scalar_i64("mx", 2).as_init(), TIn::floats("iou", &[], &[0.5]).as_init(), TIn::floats("st", &[], &[0.0]).as_init()],
+                ));
+            }
         }
     }));
 }
